@@ -171,7 +171,8 @@ Record oracle := mkOracle {
   normalized : blocks -> blocks;               (* cp_normalize *)
   jumped : nat -> blocks -> blocks -> blocks;  (* iteration, blocks two sweeps ago, current -> extrapolation *)
   accept : nat -> bool;                        (* line search accepted? *)
-  stop : nat -> bool;                          (* convergence test fired / callback returned True *)
+  stop : nat -> bool;                          (* the convergence test fired (final normalisation, then break) *)
+  cb_stop : nat -> bool;                       (* the callback returned True (break at once, no normalisation) *)
 }.
 
 Record config := mkConfig {
@@ -239,7 +240,8 @@ Fixpoint loop (n it : nat) (l : lstate) : lstate :=
   | O => l
   | S n' =>
       let l1 := iteration it l in
-      if stop Orc it then emit (finish_iteration l1) EBreak
+      if use_callback C && cb_stop Orc it then emit l1 EBreak
+      else if stop Orc it then emit (finish_iteration l1) EBreak
       else loop n' (S it) (finish_iteration l1)
   end.
 
@@ -253,7 +255,7 @@ End Skeleton.
 Arguments EUpdate {B E}. Arguments ENormalize {B E}. Arguments ELineSearch {B E}. Arguments EReport {B E}.
 Arguments ECallback {B E}. Arguments EBreak {B E}. Arguments EReturn {B E}.
 Arguments mkOracle {B}. Arguments new_block {B}. Arguments normalized {B}. Arguments jumped {B}.
-Arguments accept {B}. Arguments stop {B}.
+Arguments accept {B}. Arguments stop {B}. Arguments cb_stop {B}.
 Arguments mkL {B E}. Arguments cur {B E}. Arguments cache {B E}. Arguments last2 {B E}. Arguments errs {B E}. Arguments trace {B E}.
 Arguments setb {B}. Arguments emit {B E}. Arguments sweep {B E}. Arguments report {B E}. Arguments iteration {B E}.
 Arguments finish_iteration {B E}. Arguments loop {B E}. Arguments run {B E}. Arguments line_iter C it : rename.
